@@ -17,7 +17,12 @@ type c04Src struct {
 	chunks []int
 	pos    int
 	reads  int
+	failed bool // the final error has been delivered once
 }
+
+// what a source returns when it is read again after it has reported its error: a reader that has
+// latched the source's error never gets here (C04: the source's own error is what surfaces)
+var c04ErrReadAfterError = errors.New("c04: source read again after it reported its error")
 
 func (s *c04Src) Read(p []byte) (int, error) {
 	s.reads++
@@ -27,8 +32,12 @@ func (s *c04Src) Read(p []byte) (int, error) {
 		c = s.chunks[0]
 		s.chunks = s.chunks[1:]
 	}
+	if s.failed {
+		return 0, c04ErrReadAfterError
+	}
 	remaining := len(s.data) - s.pos
 	if remaining == 0 {
+		s.failed = s.final != nil
 		return 0, s.final
 	}
 	m := c
@@ -41,6 +50,7 @@ func (s *c04Src) Read(p []byte) (int, error) {
 	copy(p, s.data[s.pos:s.pos+m])
 	s.pos += m
 	if s.with && m == remaining && m != 0 {
+		s.failed = s.final != nil
 		return m, s.final
 	}
 	return m, nil
@@ -56,6 +66,8 @@ func c04ErrCode(err error) int {
 		return 21
 	case err == io.ErrNoProgress:
 		return 22
+	case err == c04ErrReadAfterError:
+		return 24
 	case err.Error() == "bufiox: negative count":
 		return 23
 	}
